@@ -23,15 +23,15 @@ NA = {
 }
 CHECKS = {
  "C16": dict(
-   technique="deterministic simulation: seeded baton-passing scheduler over real perform_cached_doit on tmpfs, with kill/torn-write/ENOSPC/legacy-writer/hash-seed faults, ddmin-shrunk JSON replays",
-   text="Seeded exploration of interleavings, crash points (every seam and any byte prefix), injected write errors, directory carry-over and three kinds of hash-seed configuration over the real cache code; every completed call must equal doit() and, once faults stop, one more call per expression must succeed. Sampling, not proof: evidence that no schedule/fault sequence of the generated shape breaks the property.",
+   technique="deterministic simulation: seeded scheduler that resumes one simulated process (baton-passing thread or pipe-gated fork()ed process) at a time at every file-system seam of the real perform_cached_doit on tmpfs, with kill/torn-write/ENOSPC/legacy-writer/hash-seed faults; thorough adds directed sweeps over every kill point and every single-pre-emption schedule; ddmin-shrunk JSON replays",
+   text="Seeded exploration of interleavings, crash points (every seam and any byte prefix), injected write errors, directory carry-over and three kinds of hash-seed configuration over the real cache code; every completed call must equal doit() and, once faults stop, one more call per expression must succeed under every hash-seed configuration used. The thorough tier first enumerates, as directed fault placement, every scheduler step of every single-writer call as kill point (current and pinned-protocol writer) and every one-pre-emption schedule of two callers of equal or colliding keys, then samples. Sampling, not proof: evidence that no schedule/fault sequence of the generated shape breaks the property.",
    ref="DESIGN.md §3",
-   note="Processes are baton-passing threads in one forked interpreter; kill = park + close fds; power loss after close/rename not modelled; directory contents limited to what some (pinned or current) perform_cached_doit could leave behind; canon/N digests trusted."),
+   note="Simulated processes are threads or real forked processes resumed one at a time; kill = park + close fds or SIGKILL; uncontrolled parallel execution and power loss after close/rename are not modelled; directory contents limited to what some (pinned or current) perform_cached_doit could leave behind; canon/N digests and tmpfs rename atomicity trusted."),
  "C06": dict(
    technique="deterministic simulation: seeded op histories over several builders in forked pristine processes under varied PYTHONHASHSEED, with callback-raise/interrupt/cache-eviction faults; refinement against a pristine-process reference",
    text="Each formulate() in a seeded history (1-3 processes, 1-3 interleaved builders, injected callback failures, interrupts at arbitrary ampform lines, cache evictions, hash-seed changes) is compared with the same observable configuration formulated once in a pristine fork, and pristine references are compared across hash seeds. Sampling over a fixed reaction pool.",
    ref="DESIGN.md §4.2",
-   note="A fork of a never-used zygote stands for a fresh interpreter; equal observable configuration obliges equal models; canonical digests trusted; exception outcomes compared by class."),
+   note="A fork of a never-used zygote stands for a fresh interpreter (cross-checked against newly exec'ed interpreters in the thorough tier); equal observable configuration obliges equal models; canonical (Dummy-strict) digests trusted; exception outcomes compared by class."),
  "C15": dict(
    technique="deterministic simulation: writer process -> pickle on simulated disk -> restart -> reader processes under other PYTHONHASHSEED and with their own history; digest/==/numeric oracle",
    text="Seeded histories in which a writer process dumps formulated models (C06 configuration space) and members of a pool covering every expression class of the library, loads them back in the same process, and 1-2 reader processes forked from pristine zygotes under other hash seeds, optionally after formulating other models, load them again; equality per attribute (same process), canonical digest and sampled 30-digit numeric value (other process).",
